@@ -4,7 +4,7 @@ import checklib
 
 TS_METHODS = ["Init", "Front", "Back", "PushFront", "PushBack", "Remove", "InsertBefore", "InsertAfter", "MoveToFront",
               "MoveToBack", "MoveBefore", "MoveAfter", "PushBackList", "PushFrontList", "ForEach", "ForEachReverse",
-              "Range", "RangeReverse", "Values", "Len"]
+              "Range", "RangeReverse", "Values", "Len", "snapshot"]
 
 
 def goroot():
